@@ -231,7 +231,9 @@ fn stress_round(rep: &mut Report, rng: &mut Rng, round: usize, lin: &mut (u64, u
     let hot = round % 3 != 0;
     let mem = Mem::new("c01", if hot { Hot::Yes } else { Hot::No });
     mem.set_logging(false);
-    let ids: Vec<String> = (0..nkeys).map(|i| format!("k.{i}")).collect();
+    // ids are opaque keys: every fourth round spells them with a '/'
+    let sep = if round % 4 == 3 { '/' } else { '.' };
+    let ids: Vec<String> = (0..nkeys).map(|i| format!("k{sep}{i}")).collect();
     for id in &ids {
         mem.write(id, "a", format!("leaf-{id}").as_bytes());
         mem.write(id, "n0", format!("file {id} a").as_bytes());
@@ -548,7 +550,7 @@ pub fn run(args: &Args) -> Report {
     let miri = cfg!(miri);
     let mut rng = Rng::new(args.seed).sub(1 + args.shard as u64 * 1000);
     CTX.log_on.store(false, SeqCst);
-    let rounds = if miri { 2 } else { args.n(400, 2_500) };
+    let rounds = if miri { 2 } else { args.n(400, 5_000) };
     let mut racy_rounds = 0u64;
     let mut lin = (0u64, 0u64);
     for round in 0..rounds {
@@ -563,7 +565,7 @@ pub fn run(args: &Args) -> Report {
     rep.count("rounds_with_overlapping_creations", racy_rounds);
     rep.count("per_key_histories_linearizable", lin.0);
     rep.count("per_key_histories_checker_inconclusive", lin.1);
-    let forced = if miri { 2 } else { args.n(60, 600) };
+    let forced = if miri { 2 } else { args.n(60, 1_200) };
     let mut verified = 0u64;
     for round in 0..forced {
         rep.eval();
@@ -583,7 +585,7 @@ pub fn run(args: &Args) -> Report {
     let il = rep.n_interleavings();
     rep.count("distinct_interleavings", il);
     let _ = fnv_str;
-    rep.floor("forced_miss_rounds_verified_simultaneous", verified, if miri { 1 } else { args.n(50, 500) as u64 });
+    rep.floor("forced_miss_rounds_verified_simultaneous", verified, if miri { 1 } else { args.n(50, 1_000) as u64 });
     rep.floor_set("shard_counts", if miri { 1 } else { 3 });
     rep.floor("rounds_with_overlapping_creations", racy_rounds, if miri { 0 } else { (rounds / 10) as u64 });
     rep.floor("distinct_interleavings", il, if miri { 1 } else { 20 });
